@@ -227,7 +227,11 @@ class Ctx:
         e['pi'] = math.pi
         for name in self.derived_names[:self.next_derived]:
             if name not in e:
-                e[name] = self.derived_value(name, e)
+                try:
+                    e[name] = self.derived_value(name, e)
+                except (ZeroDivisionError, ValueError, OverflowError):
+                    # the pool is shared by all paths: an atom of another path may be undefined at this path's witness
+                    e[name] = float('nan')
         return e
 
 
@@ -835,6 +839,16 @@ class Sx:
                 v = v * complex(math.cos(math.pi * ph), math.sin(math.pi * ph))
             tot += v
         return tot
+
+    def __format__(self, spec):
+        # a number formatted into text is carried as a placeholder that parses back to the same value (symio text transport)
+        if spec == '':
+            from . import symio
+            return symio.make_token(self)
+        f = self.as_fraction()
+        if f is not None:
+            return format(float(f), spec)
+        return repr(self)
 
     def __repr__(self):
         if not self.t:
@@ -1625,18 +1639,38 @@ def equalities_to_substitutions(ctx, pathcond):
     generators.  On such a path the parameter g is not free any more, and distinct symbolic phasors may coincide; the
     obligation is therefore decided on the substituted terms."""
     subs = []
+    eqs = []
+    notlt, notgt = {}, {}
     for sb, val in pathcond:
         if not isinstance(sb, SymBool) or sb.kind != 'rel':
             continue
-        if not ((sb.op == '==' and val) or (sb.op == '!=' and not val)):
+        if (sb.op == '==' and val) or (sb.op == '!=' and not val):
+            k = sb.a.as_k()
+            if k is not None:
+                eqs.append(k)
             continue
+        # not (e < 0) and not (e > 0)  (or e <= 0 and e >= 0)  is the equality e == 0
         k = sb.a.as_k()
         if k is None:
             continue
+        if (sb.op == '<' and not val) or (sb.op == '>=' and val):
+            notlt[k] = True
+        elif (sb.op == '>' and not val) or (sb.op == '<=' and val):
+            notgt[k] = True
+        if k in notlt and k in notgt and k not in eqs:
+            eqs.append(k)
+    for k in eqs:
         for gname, val_poly in subs:
             k = _subs_k(k, ctx, gname, val_poly)
         p = k.numer
         ring = p.ring
+        # a factor that is a generator known to be positive cannot vanish: drop it
+        for name in ctx.param_names:
+            if ctx.gen_positive(name):
+                gi = ctx.gen_index[name]
+                g = ring.gens[gi]
+                while p != 0 and all(mon[gi] >= 1 for mon in p.monoms()):
+                    p = p.quo(g)
         for name in ctx.param_names:
             gi = ctx.gen_index[name]
             if p.degree(gi) != 1:
